@@ -28,7 +28,11 @@ from ..snapshot import brief, diff, snapshot
 RULE = (
     "seeded structured elections (<=6 projects, <=6 voters, four ballot types, list and multi profiles) x every applicable entry "
     "point with caller-owned parameter objects (initial allocation list, initial loads, rule_params / mes_params dicts, "
-    "rule_sequence and rule_params lists, payment functions, sat_profile); plus call sequences sharing all objects; both streams "
+    "rule_sequence and rule_params lists, payment functions, sat_profile; the initial allocation is a list, a BudgetAllocation, or "
+    "the outcome of an earlier greedy / Equal Shares run with analytics=True carrying that run's details; 30% of the parameter "
+    "dictionaries also carry keys the wrapper sets itself -- resoluteness, initial_budget_allocation, analytics, sat_class, "
+    "tie_breaking -- with the wrapper's value or a conflicting one; arguments are compared whether the call returns or raises); "
+    "plus call sequences sharing all objects; both streams "
     "repeated over less usual constructions of the profile argument (built without instance=, linked to another edition of the "
     "instance, deep-copied with its own project objects, validation off; multiprofiles by conversion or built directly); "
     "non-trivial = the call returned normally on an election with >=2 projects and >=2 voters; distinct by (entry, case hash)"
@@ -80,7 +84,8 @@ class World:
         names = [n for n, _ in case.projects]
         # caller-owned parameter objects
         self.init = [self.projs[n] for n in core.gen_init(rng, case)]
-        if rng.random() < 0.5:
+        init_form = rng.random()
+        if init_form < 0.35:
             # the caller's initial allocation is often a BudgetAllocation object (e.g. the outcome of an earlier rule)
             self.init = BudgetAllocation(self.init)
         sub, tot = [], F(0)
@@ -94,8 +99,18 @@ class World:
         self.sat_any = rng.choice(core.SAT_BY_TYPE[case.btype] + core.SAT_NONADD.get(case.btype, []))
         self.sc = core.sat_class(self.sat_name)
         self.tie = core.tie_rule(rng.choice(["lexico", "min_cost", "max_cost"] + (["app_score"] if case.btype == "app" else [])))
+        self.init_form = "list" if not isinstance(self.init, BudgetAllocation) else "BudgetAllocation"
+        if init_form >= 0.7:
+            # ... and the outcome of an earlier rule run carries that run's `details` when it was made with analytics=True
+            self.init = self._earlier_stage(rng)
         self.rule_params = {"sat_class": self.sc, "tie_breaking": self.tie}
         self.mes_params = {"sat_class": self.sc, "tie_breaking": self.tie}
+        # keys that a wrapper sets itself when it calls the rule, in case the caller's dictionary carries them as well (with
+        # the value the wrapper would use, or with another one): whatever the wrapper then does -- use it, override it,
+        # reject the call -- the caller's dictionary stays as it was
+        for d, p in ((self.rule_params, 0.3), (self.mes_params, 0.3)):
+            if rng.random() < p:
+                d.update(self.own_keys(rng, rng.random() < 0.7))
         self.payment = [{self.projs[n]: core.to_num(F(1, 2) if n in b else F(0)) for n in names} for b in case.ballots]
         self.sat_profile = None
         self.details = None
@@ -132,6 +147,40 @@ class World:
             mcls = type(lp.as_multiprofile())
             self.prof = mcls([b.frozen() for b in new], **({"instance": new.instance, "ballot_validation": new.ballot_validation} if kw is None else kw))
 
+    def _earlier_stage(self, rng):
+        """first stage of a two-stage process: a rule run with analytics=True on the same election with part of the budget;
+        its outcome (a BudgetAllocation carrying the run's details: per-project records for greedy, iterations for Equal
+        Shares) is the caller's initial allocation of the later calls"""
+        import pabutools.rules as R
+        from pabutools.election import Instance
+
+        stage = Instance(list(self.inst), budget_limit=core.to_num(self.case.budget * F(rng.choice([1, 1, 2]), rng.choice([2, 3]))))
+        which = rng.choice(["greedy", "greedy", "mes"])
+        self.init_form = "earlier %s outcome with details" % which
+        if which == "greedy":
+            return R.greedy_utilitarian_welfare(stage, self.listprof, sat_class=self.sc, tie_breaking=self.tie, analytics=True)
+        return R.method_of_equal_shares(stage, self.listprof, sat_class=self.sc, tie_breaking=self.tie, analytics=True)
+
+    def own_keys(self, rng, same, resoluteness=True):
+        """a few of the keyword arguments that the wrappers pass to the rules themselves, as entries of a caller-owned
+        parameter dictionary; same=True: with the value the wrapper would pass"""
+        from pabutools.rules import BudgetAllocation
+
+        out = {}
+        keys = rng.sample(["resoluteness", "initial_budget_allocation", "analytics", "sat_class", "tie_breaking"], rng.choice([1, 1, 2]))
+        for k in keys:
+            if k == "resoluteness":
+                out[k] = resoluteness if same else not resoluteness
+            elif k == "initial_budget_allocation":
+                out[k] = self.init if same else BudgetAllocation(list(self.alloc))
+            elif k == "analytics":
+                out[k] = True
+            elif k == "sat_class":
+                out[k] = self.sc if same else core.sat_class(self.sat_any)
+            else:
+                out[k] = self.tie if same else core.tie_rule("lexico")
+        return out
+
     def rules(self):
         import pabutools.rules as R
 
@@ -141,8 +190,15 @@ class World:
         R = self.rules()
         return [R.method_of_equal_shares, R.greedy_utilitarian_welfare]
 
-    def rule_params_list(self):
-        return [{"sat_class": self.sc, "tie_breaking": self.tie}, {"sat_class": self.sc}]
+    def rule_params_list(self, resoluteness=True):
+        ps = [{"sat_class": self.sc, "tie_breaking": self.tie}, {"sat_class": self.sc}]
+        rng = self.rng
+        if rng.random() < 0.3:
+            same = rng.random() < 0.7
+            for d in ps:
+                if rng.random() < 0.7:
+                    d.update(self.own_keys(rng, same, resoluteness))
+        return ps
 
 
 def gen_case(rng: random.Random):
@@ -161,13 +217,18 @@ def _rules_entries(w: World):
     E = {}
     sat_kw = lambda: ({"sat_profile": w.prof.as_sat_profile(w.sc)} if rng.random() < 0.3 else {"sat_class": w.sc})  # noqa: E731
     res = lambda: rng.random() < 0.7  # noqa: E731
-    E["greedy_utilitarian_welfare"] = lambda: (R.greedy_utilitarian_welfare, dict(instance=w.inst, profile=w.prof, **({"sat_class": core.sat_class(w.sat_any)} if rng.random() < 0.5 else sat_kw()), tie_breaking=w.tie, resoluteness=res(), initial_budget_allocation=w.init))
+    E["greedy_utilitarian_welfare"] = lambda: (R.greedy_utilitarian_welfare, dict(instance=w.inst, profile=w.prof, **({"sat_class": core.sat_class(w.sat_any)} if rng.random() < 0.5 else sat_kw()), tie_breaking=w.tie, resoluteness=res(), initial_budget_allocation=w.init, analytics=rng.random() < 0.5))
     E["method_of_equal_shares"] = lambda: (R.method_of_equal_shares, dict(instance=w.inst, profile=w.prof, **sat_kw(), tie_breaking=w.tie, resoluteness=res(), initial_budget_allocation=w.init, analytics=rng.random() < 0.5, voter_budget_increment=rng.choice([None, None, 1])))
     if bt == "app":
         E["sequential_phragmen"] = lambda: (R.sequential_phragmen, dict(instance=w.inst, profile=w.prof, initial_loads=rng.choice([None, w.loads]) if not w.multi else None, initial_budget_allocation=w.init, tie_breaking=w.tie, resoluteness=res()))
     E["max_additive_utilitarian_welfare"] = lambda: (R.max_additive_utilitarian_welfare, dict(instance=w.inst, profile=w.prof, **sat_kw(), resoluteness=True, initial_budget_allocation=w.init, inner_algo=R.MaxAddUtilWelfareAlgo.PRIMAL_DUAL))
     E["max_additive_utilitarian_welfare[ILP]"] = lambda: (R.max_additive_utilitarian_welfare, dict(instance=w.inst, profile=w.prof, sat_class=w.sc, resoluteness=res(), initial_budget_allocation=w.init, inner_algo=R.MaxAddUtilWelfareAlgo.ILP_SOLVER))
-    E["completion_by_rule_combination"] = lambda: (R.completion_by_rule_combination, dict(instance=w.inst, profile=w.prof, rule_sequence=w.rule_sequence(), rule_params=w.rule_params_list(), initial_budget_allocation=w.init, resoluteness=res()))
+
+    def completion():
+        r = res()
+        return R.completion_by_rule_combination, dict(instance=w.inst, profile=w.prof, rule_sequence=w.rule_sequence(), rule_params=w.rule_params_list(r), initial_budget_allocation=w.init, resoluteness=r)
+
+    E["completion_by_rule_combination"] = completion
     step = core.to_num(max(w.case.budget / 3, F(1, 2)))
     E["exhaustion_by_budget_increase"] = lambda: (R.exhaustion_by_budget_increase, dict(instance=w.inst, profile=w.prof, rule=R.method_of_equal_shares, rule_params=w.rule_params, initial_budget_allocation=w.init, resoluteness=res(), budget_step=step, budget_bound=core.to_num(w.case.budget * 3)))
     if not w.multi:
@@ -416,6 +477,7 @@ def run_election(ctx, case, multi, seed, solver_tasks, solver_budget, variant="s
     w = World(case, multi, seed, variant)
     E = all_entries(w)
     ctx.count("profile_construction", variant + ("/multi" if multi else "/list"))
+    ctx.count("initial_allocation_form", w.init_form)
     for name in E:
         if is_solver(name):
             if len(solver_tasks) < solver_budget:
@@ -424,6 +486,7 @@ def run_election(ctx, case, multi, seed, solver_tasks, solver_budget, variant="s
         func, kwargs = E[name]()
         status, diffs, _ = observe(name, func, kwargs)
         record(ctx, name, case, status)
+        note_args(ctx, kwargs, status)
         if diffs:
             for d in diffs[:1]:
                 ctx.violations.append(violation(name, case, multi, seed, status, d, "single", variant))
@@ -432,6 +495,23 @@ def run_election(ctx, case, multi, seed, solver_tasks, solver_budget, variant="s
             E2 = all_entries(w)
             for k in E2:
                 E[k] = E2[k]
+
+
+OWN_KEYS = ("resoluteness", "initial_budget_allocation", "analytics", "sat_class", "tie_breaking")
+
+
+def note_args(ctx, kwargs, status):
+    """distribution of the caller-owned argument objects that matter for aliasing"""
+    ds = []
+    for k in ("rule_params", "mes_params"):
+        v = kwargs.get(k)
+        ds += [v] if isinstance(v, dict) else (list(v) if isinstance(v, list) else [])
+    extra = sorted({k for d in ds for k in d if k in OWN_KEYS[:3]})
+    if extra:
+        ctx.count("params_carrying_wrapper_keys", "+".join(extra) + (" -> ok" if status == "ok" else " -> raises"))
+    init = kwargs.get("initial_budget_allocation")
+    if getattr(init, "details", None) is not None and kwargs.get("analytics"):
+        ctx.count("analytics_call_on_init_with_details", type(init.details).__name__)
 
 
 def record(ctx, name, case, status):
@@ -457,6 +537,7 @@ def run_sequence(ctx, case, multi, seed, length, variant="standard"):
             chosen[i] = rng.choice(rich)
     ctx.count("sequences", "run")
     ctx.count("profile_construction", variant + ("/multi" if multi else "/list") + " (sequence)")
+    ctx.count("initial_allocation_form", w.init_form + " (sequence)")
     for name in chosen:
         func, kwargs = E[name]()
         try:
@@ -466,6 +547,7 @@ def run_sequence(ctx, case, multi, seed, length, variant="standard"):
             ctx.count("sequences", "no_fresh_copy")
         status, diffs, res = observe(name, func, kwargs)
         record(ctx, name, case, status)
+        note_args(ctx, kwargs, status)
         ctx.count("sequence_calls", public_name(name))
         if diffs:
             ctx.violations.append(violation(name, case, multi, seed, status, diffs[0], "sequence", variant))
